@@ -158,6 +158,14 @@ BUILT = {
             'Decoders mc/formats.py; reference lines mc/refasm.py; the compact format is told the lowest emitted address when no '
             'origin precedes its first data line.',
             'DESIGN.md 3/C16'),
+    'C18': ('model_checking',
+            'exhaustive enumeration of rewrite-site subsets over token-structured base programs, pairs of real executions',
+            'For 270 base programs (thorough: +1000 triples) and each of 10 rewrite kinds (mnemonic / register case, token separator, '
+            'comma spacing, bracket padding, indentation, blank lines, comments, label placement, joining instructions) and each '
+            'variant, every subset of the rewrite sites is applied and the rewritten program assembled; status and image must equal '
+            'those of the base rendering.',
+            'Differential oracle against the base rendering of the same program; only instructions are joined on one line.',
+            'DESIGN.md 3/C18'),
 }
 
 NOT_BUILT_REASON = 'check not built yet (work in progress in this session); no claim made'
